@@ -259,6 +259,22 @@ def _popen_write_shape():
     return "WOther"
 
 
+@fact("popen_streams_buffered", "bool", "false")
+def _popen_streams_buffered():
+    """the file objects a Popen2IO writes to are BUFFERED writers (one write() call holds the buffer lock, which is what makes
+    a frame atomic between threads): the master's Popen(...) is called with the default bufsize, the worker's stdout comes from
+    fdopen(dup(1), 'w', 1) -- a text wrapper whose .buffer Popen2IO.__init__ picks"""
+    f = find("gateway_io.py", "Popen2IOMaster.__init__")
+    calls = [n for n in ast.walk(f) if isinstance(n, ast.Call) and unparse(n.func).endswith("subprocess.Popen")]
+    ok = len(calls) == 1 and sorted(k.arg or "**" for k in calls[0].keywords) == ["stdin", "stdout"] and len(calls[0].args) == 1
+    ok = ok and "super().__init__(p.stdin, p.stdout, execmodel=execmodel)" in unparse(f)
+    w = unparse(find("gateway_base.py", "init_popen_io"))
+    ok = ok and "stdout = execmodel.fdopen(os.dup(1), 'w', 1)" in w and "io = Popen2IO(stdout, stdin, execmodel)" in w
+    em = unparse(find("gateway_base.py", "ThreadExecModel.fdopen"))
+    ok = ok and "return os.fdopen(fd, mode, bufsize, encoding='utf-8', closefd=closefd)" in em
+    return "true" if ok else "false"
+
+
 @fact("socket_write_shape", "wshape", "WOther")
 def _socket_write_shape():
     f = find("gateway_socket.py", "SocketIO.write")
@@ -686,8 +702,8 @@ def _chan_receive_shape_ok():
 
 @fact("chan_local_close_order_ok", "bool", "false")
 def _chan_local_close_order_ok():
-    """ChannelFactory._local_close on a registered channel: error appended BEFORE the ENDMARKER is queued (a receiver
-    that sees the ENDMARKER finds the error), then unregistered, then _closed, then _receiveclosed.set()"""
+    """ChannelFactory._local_close on a registered channel: error appended, _closed and _receiveclosed set BEFORE the ENDMARKER
+    is queued (a receiver that sees the ENDMARKER finds the error and the closed state), then unregistered"""
     f = find("gateway_base.py", "ChannelFactory._local_close")
     body = _body_nodoc(f)
     if len(body) != 2 or _src(body[0]) != "channel = self._channels.get(id)" or not isinstance(body[1], ast.If) or _src(body[1].test) != "channel is None":
@@ -696,8 +712,8 @@ def _chan_local_close_order_ok():
     if "self._no_longer_opened(id)" not in gone or "channel." in gone:
         return "false"
     t = [_src(n) for n in body[1].orelse]
-    want = ["if remoteerror:\n    channel._remoteerrors.append(remoteerror)", "queue = channel._items", "if queue is not None:\n    queue.put(ENDMARKER)",
-            "self._no_longer_opened(id)", "if not sendonly:\n    channel._closed = True", "channel._receiveclosed.set()"]
+    want = ["if remoteerror:\n    channel._remoteerrors.append(remoteerror)", "if not sendonly:\n    channel._closed = True", "channel._receiveclosed.set()",
+            "queue = channel._items", "if queue is not None:\n    queue.put(ENDMARKER)", "self._no_longer_opened(id)"]
     if t != want:
         return "false"
     n = _src(find("gateway_base.py", "ChannelFactory._no_longer_opened"))
